@@ -2066,6 +2066,15 @@ class Ev:
                 if isinstance(v, Obj) and v.cls is not None and x.cls in self.repo.mro(v.cls):
                     return True
             elif isinstance(x, ModRef):
+                # a class of the repository named through its module path (commonroad.prediction.prediction.X)
+                parts = x.name.split(".")
+                rel = "/".join(parts[:-1]) + ".py"
+                rm = self.repo.modules.get(rel)
+                if rm is not None and parts[-1] in rm.classes:
+                    rc = rm.classes[parts[-1]]
+                    if isinstance(v, Obj) and v.cls is not None and rc in self.repo.mro(v.cls):
+                        return True
+                    continue
                 # an outside class: decided by the declared outside types of the object; typing aliases: List / Tuple / ...
                 n = x.name.split(".")[-1]
                 if hasattr(v, "ext_types"):
